@@ -1,6 +1,6 @@
-(** Property C11 -- dump() reproduces the terminal for all future input (see DESIGN.md section 13 for what is proved).
+(** Property C11 -- dump() reproduces the terminal for all future input .
     Only pinned statements, closed by [exact], with their assumptions printed. *)
-From Avt Require Import Oracles.Rel Spec.Screen Proofs.Inv Proofs.ParserInv Proofs.PenInv Proofs.ParamChop Proofs.Future Proofs.FutureInst Proofs.DumpParserRT Proofs.DumpPen Proofs.DumpRows Proofs.InvStep.
+From Avt Require Import Oracles.Rel Spec.Screen Proofs.Inv Proofs.ParserInv Proofs.PenInv Proofs.ParamChop Proofs.Future Proofs.FutureInst Proofs.DumpParserRT Proofs.DumpPen Proofs.DumpRows Proofs.InvStep Proofs.PenInvProofs Proofs.DumpMargins Proofs.DumpScript.
 
 (** THE FUTURE HALF: the observational equivalence established by a restore (executable statement holds_C11: same visible cells, pens, wrap marks, cursor, visibility, every mode, margins, tabs, charsets, saved contexts, parser state) is preserved by EVERY further input string - two terminals related by it stay related (and never panic) whatever is fed to both. Scrollback, its limit, dirty / trim flags and the discarded parked alternate buffer may differ. (PWf: parser data cleared in entry states - holds for every state reachable by feeding, see Proofs/Future.v.) *)
 Theorem C11_future : forall a b s a' oa, Inv a -> Inv b -> parked_ok (vterm a) -> parked_ok (vterm b) -> PWf (vparser a) -> PWf (vparser b) -> holds_C11 a b = true -> feed_str a s = Ok (a', oa) -> exists b' ob, feed_str b s = Ok (b', ob) /\ holds_C11 a' b' = true.
@@ -30,3 +30,20 @@ Theorem C11_dump_total : forall v, Inv v -> exists s, vt_dump v = Ok s.
 Proof. exact vt_dump_ok. Qed.
 Check C11_dump_total : forall v, Inv v -> exists s, vt_dump v = Ok s.
 Print Assumptions C11_dump_total.
+
+(** THE RESTORE HALF: for every state satisfying the invariants (all of which hold for every reachable state, next theorem),
+    outside the three known-finding classes (kf1: origin mode with the cursor outside the region; kf2: alternate screen showing
+    with a parked primary of stale geometry; kf3 / dumpable': sizes or stale saved coordinates beyond the 16-bit parameter
+    range), dump() succeeds, feeding it to a fresh terminal of the same size succeeds, and the restored terminal is
+    observationally equal to the original (holds_C11): same visible cells, pens, wrap marks, cursor position incl. wrap-pending,
+    visibility, all modes, margins, tab stops, charsets, both saved contexts, parser state incl. a cut in mid-sequence. *)
+Theorem C11_dump : forall v, Inv v -> PReach (vparser v) -> PensInv (vterm v) -> CharsInv (vterm v) -> MarginsInv (vterm v) -> dumpable' (vterm v) -> kf1_C11 (vterm v) = false -> kf2_C11 (vterm v) = false -> exists d r o, vt_dump v = Ok d /\ feed_str (vt_new (cols (vterm v)) (rows (vterm v)) None) d = Ok (r, o) /\ holds_C11 v r = true.
+Proof. exact C11_dump. Qed.
+Check C11_dump : forall v, Inv v -> PReach (vparser v) -> PensInv (vterm v) -> CharsInv (vterm v) -> MarginsInv (vterm v) -> dumpable' (vterm v) -> kf1_C11 (vterm v) = false -> kf2_C11 (vterm v) = false -> exists d r o, vt_dump v = Ok d /\ feed_str (vt_new (cols (vterm v)) (rows (vterm v)) None) d = Ok (r, o) /\ holds_C11 v r = true.
+Print Assumptions C11_dump.
+
+(** ... for every history of feeds, flushes and resizes from a fresh terminal *)
+Theorem C11_dump_reachable : forall c r l ops v, 1 <= c -> 1 <= r -> Forall op_ok ops -> runM (vt_new c r l) ops = Ok v -> dumpable' (vterm v) -> kf1_C11 (vterm v) = false -> kf2_C11 (vterm v) = false -> exists d r' o, vt_dump v = Ok d /\ feed_str (vt_new (cols (vterm v)) (rows (vterm v)) None) d = Ok (r', o) /\ holds_C11 v r' = true.
+Proof. exact C11_dump_run. Qed.
+Check C11_dump_reachable : forall c r l ops v, 1 <= c -> 1 <= r -> Forall op_ok ops -> runM (vt_new c r l) ops = Ok v -> dumpable' (vterm v) -> kf1_C11 (vterm v) = false -> kf2_C11 (vterm v) = false -> exists d r' o, vt_dump v = Ok d /\ feed_str (vt_new (cols (vterm v)) (rows (vterm v)) None) d = Ok (r', o) /\ holds_C11 v r' = true.
+Print Assumptions C11_dump_reachable.
